@@ -388,6 +388,35 @@ def replay_main(pid, path):
     work = common.tmpdir("replay-")
     _CTX["work"] = work
     try:
+        if "presort" in rp:            # a pre-sort state of Infretis.tla handed to the real sort_trajstate
+            c = rp["presort"]
+            _SORT["n"] = rp["constants"]["N"]
+            _n, fails = _sort_job([(tuple(c["slot"]), frozenset(c["lock"]), tuple(tuple(r) for r in c["rows"]))])
+            if fails:
+                print(f"VIOLATION property={pid} replay={path}\n  {[f[:2] for f in fails]}")
+                return 1
+            print("replay: sort_trajstate treats this state as the property demands")
+            return 0
+        if rp.get("kind") in ("real-pool", "sigkill"):
+            # the unmodified scheduler with a real process pool: completion order and kill moments are decided by the operating
+            # system, so the history is re-run a few times
+            want = rp.get("clause")
+            for attempt in range(3):
+                _idx, res = _real_pool_job((attempt, dict(rp["run"])))
+                if "_error" in res:
+                    print(f"replay: the driver failed ({res['_error'][:200]})")
+                    return 2
+                probs = [sig for sig, _w in res["problems"]]
+                bad = []
+                if res["events"]:
+                    key = (rp["run"]["n"], rp["run"]["workers"])
+                    out = trace.validate({key: [trace.encode_trace(res["events"])]}, procs=1)
+                    bad = [c for _o, _n2, _w2, r in out for (_t, _e, c) in r["bad"] if c in CLAUSES.get(pid, ())]
+                if want in probs or want in bad or (probs and want not in CLAUSES.get(pid, ())):
+                    print(f"VIOLATION property={pid} replay={path}\n  attempt {attempt + 1}: {probs or sorted(set(bad))}")
+                    return 1
+            print(f"replay: three re-runs of this history did not show {want} again")
+            return 0
         if rp.get("binding") == "B":
             consts = rp.get("run") or {"N": rp["constants"]["N"], "Workers": rp["constants"]["Workers"], "Steps": rp["constants"]["Steps"]}
             for seed in range(4):   # the only free choice of a replay is the draw order inside a zero swap
